@@ -119,7 +119,7 @@ func main() {
 		seed:     seed,
 		workers:  *workers,
 		verbose:  *verbose,
-		race:     os.Getenv("VERIF_RACE") == "1" || *tier == "thorough",
+		race:     os.Getenv("VERIF_RACE") != "0", // lssim also builds a -race worker for one slice of the budget (VERIF_RACE=0 turns it off)
 	}
 	if cfg.tier != "quick" && cfg.tier != "thorough" {
 		die2("unknown tier %q", cfg.tier)
